@@ -88,10 +88,19 @@ def carry(g: grid.Grid[Any, Any], width: int, dy: float):
     action.move(grid.shift(g[0:width, :], 1.0, dy))
     action.turn_off(action.ALL, action.ALL)
 
+@tweezer
+def last_tone(g: grid.Grid[Any, Any]):
+    action.set_loc(g)
+    action.turn_on([-1], [0])
+    action.move(grid.shift(g, 0.5, 0.5))
+    action.turn_off([-1], [0, -1])
+
 @move
 def main(n: int, m: int, b: bool):
     z = spec.get_static_trap(zone_id="A")
     d = schedule.device_fn(carry, [0, 1], [0, 1, 2])
+    lt = schedule.device_fn(last_tone, [0, 1, 2], [0, 1])
+    lt(z)
     gate.global_rz(0.5)
     d(z, 3, 1.0)
     gate.local_rz(0.25, z)
@@ -101,6 +110,54 @@ def main(n: int, m: int, b: bool):
     r(z, 3, 0.5)
     return n
 '''
+
+
+OPTION_SRC = L.HDR + '''
+@tweezer
+def hopk(g: grid.Grid[Any, Any], dx: float):
+    action.set_loc(g)
+    action.move(grid.shift(g, dx, 0.0))
+
+@move{opts}
+def main(n: int, m: int, b: bool):
+    z = spec.get_static_trap(zone_id="A")
+    fa = schedule.device_fn(hopk, [0], [0])
+    fb = schedule.device_fn(hopk, [1], [1])
+    if b:
+        f = fa
+    else:
+        f = fb
+    gate.global_rz(0.5)
+    f(z, 1.0)
+    g = f
+    for i in range(n):
+        g(z, 0.5 * i)
+        g = schedule.reverse(g)
+    gate.global_r(0.5, 0.25)
+    return n
+'''
+
+
+def option_stream(ctx, spec, PathVisualizer, recorder):
+    """the same program compiled with other decorator options renders the same sequence (a device function that reaches its call
+    through an if/else assignment, an alias and a loop-carried variable)"""
+    ref = {}
+    for opts in ("", "(typeinfer=False)", "(fold=False)", "(typeinfer=False, verify=False)", "(aggressive=True)"):
+        src = OPTION_SRC.replace("{opts}", opts)
+        for a in ((2, 0, True), (3, 0, False)):
+            rec = recorder()
+            try:
+                mod = T.load_source(src, "c16o")
+                PathVisualizer(mod.main.dialects, arch_spec=spec, renderer=rec).run(mod.main, args=a, kwargs={})
+                got = "ok (" + " ".join(rec.calls) + ")"
+            except Exception as e:  # noqa: BLE001
+                got = f"err {type(e).__name__} after (" + " ".join(rec.calls) + ")"
+            ctx.count("option_runs")
+            if opts == "":
+                ref[a] = got
+            elif got != ref[a]:
+                ctx.fail({"source": src[len(L.HDR):], "args": list(a), "options": opts},
+                         f"compiled with @move{opts} the visualizer renders {got[:300]}, compiled with default options {ref[a][:300]}")
 
 
 def failing_call_stream(ctx, spec, PathVisualizer, recorder):
@@ -199,6 +256,7 @@ def run(ctx):
     if ctx.counts.get("compile_fail", 0) > 0.3 * n_prog:
         raise HarnessFault("generator degenerate: >30% of generated programs do not compile")
     failing_call_stream(ctx, spec, PathVisualizer, recorder)
+    option_stream(ctx, spec, PathVisualizer, recorder)
     model = ctx.driver(lines)
     ctx.traces_validated = len(rows)
     for (case, got, want, want2), m in zip(rows, model):
